@@ -169,11 +169,17 @@ CHAR_PRIMS = ("core::str::<impl str>::chars", "core::str::<impl str>::char_indic
 BYTE_PRIMS = ("core::str::<impl str>::get", "core::str::<impl str>::len", "core::str::<impl str>::as_bytes", "core::str::<impl str>::bytes")
 
 
-def body_callees(F, b):
+def body_callees(F, b, depth=0):
     out = set()
     for _, t in mir.calls(b):
         out.add(mir.callee_def(t))
         out.add(mir.callee(t))
+        # private helpers of the string module (`StringChars::boundaries()`): what they use, the method uses
+        c = mir.callee(t) or ""
+        if depth < 2 and c.startswith("value::string::") and c != b.path and F.has(c):
+            hb = F.body(c)
+            if hb is not None and hb.mir and hir.last(c) not in ("len", "get", "slice", "list"):
+                out |= body_callees(F, hb, depth + 1)
     # closures defined inside
     for p in F.paths():
         if p.startswith(b.path + "::{closure"):
